@@ -1018,6 +1018,39 @@ pub fn plant_ext_inst(rng: &mut Rng, stream: &mut Stream) {
 /// another width / kind.
 pub fn plant_late_type(rng: &mut Rng, stream: &mut Stream) {
     let s = snap();
+    if rng.chance(1, 3) {
+        // a constant whose result type is the id of a VALUE (a function, a parameter, a value defined in a block) that
+        // the parser's tracker has typed 64-bit by propagation; a second pass over the global section alone cannot
+        // know that type.  Well-bracketed: a complete function, the constants behind it.
+        let b = stream.header.bound + 1;
+        let float = rng.chance(1, 3);
+        let w = *rng.pick(&[64u32, 64, 64, 32, 16, 7]);
+        let mut tops = vec![MOp::W(s.k_lit32, w)];
+        if !float {
+            tops.push(MOp::W(s.k_lit32, rng.below(2) as u32));
+        }
+        let at = stream.insts.iter().position(|i| i.is("Function")).unwrap_or(stream.insts.len());
+        stream.insts.insert(at, MInst { opcode: if float { s.op("TypeFloat") } else { s.op("TypeInt") }, rtype: None, rid: Some(b), ops: tops });
+        let f = b + 1;
+        stream.insts.push(MInst { opcode: s.op("Function"), rtype: Some(b), rid: Some(f), ops: vec![MOp::W(s.kind("FunctionControl"), 0), MOp::W(s.k_idref, b)] });
+        stream.insts.push(MInst { opcode: s.op("FunctionParameter"), rtype: Some(b), rid: Some(f + 1), ops: vec![] });
+        stream.insts.push(MInst { opcode: s.op("Label"), rtype: None, rid: Some(f + 2), ops: vec![] });
+        stream.insts.push(MInst { opcode: s.op("Undef"), rtype: Some(b), rid: Some(f + 3), ops: vec![] });
+        stream.insts.push(MInst { opcode: s.op("CopyObject"), rtype: Some(f + 3), rid: Some(f + 4), ops: vec![MOp::W(s.k_idref, f + 3)] });
+        stream.insts.push(MInst { opcode: s.op("Return"), rtype: None, rid: None, ops: vec![] });
+        stream.insts.push(MInst { opcode: s.op("FunctionEnd"), rtype: None, rid: None, ops: vec![] });
+        let mut next = f + 5;
+        for _ in 0..rng.range(1, 3) {
+            let via = f + rng.below(5) as u32;
+            // (f + 2 is the label: not typed -> one word)
+            let two = w == 64 && via != f + 2;
+            let lit = if two { MOp::L64(((rng.word() as u64) << 32) | rng.word() as u64) } else { MOp::W(s.k_lit32, rng.word()) };
+            stream.insts.push(MInst { opcode: if rng.chance(3, 4) { s.op("Constant") } else { s.op("SpecConstant") }, rtype: Some(via), rid: Some(next), ops: vec![lit] });
+            next += 1;
+        }
+        stream.header.bound = next + 1;
+        return;
+    }
     let ty = stream.header.bound + 1;
     let decl = |rng: &mut Rng| -> MInst {
         let float = rng.chance(1, 3);
